@@ -39,10 +39,10 @@ class StripCommentsFilter:
             if token.ttype in sql_hints:
                 is_sql_hint = True
             elif isinstance(token, sql.Comment):
-                comment_tokens = token.tokens
-                if len(comment_tokens) > 0:
-                    if comment_tokens[0].ttype in sql_hints:
-                        is_sql_hint = True
+                # Comments inside the group have been removed already,
+                # keep the group if a hint is left in it.
+                if any(t.ttype in sql_hints for t in token.flatten()):
+                    is_sql_hint = True
 
             if is_sql_hint:
                 # using current index as start index to search next token for
